@@ -23,6 +23,7 @@ CtxTwo == {C1, C2}
 
 W(tmpl, ow, ix, mig, tag) == [tmpl |-> tmpl, ow |-> ow, idx |-> ix, mig |-> mig, tag |-> tag]
 WorldsOne(t) == {W("none", FALSE, FALSE, FALSE, 0)}
+WorldsTag(t) == {W("none", FALSE, FALSE, FALSE, tag) : tag \in {0, 2}}
 WorldsQuick(t) == IF t = "mem" THEN {W("none", FALSE, FALSE, FALSE, 0)}
                   ELSE {W("none", FALSE, FALSE, FALSE, 0), W("diff", TRUE, TRUE, TRUE, 2)}
 WorldsAll(t) == IF t = "mem" THEN {W("none", FALSE, FALSE, FALSE, tag) : tag \in {0, 2}}
@@ -46,13 +47,16 @@ PutSim == {a \in PutAll : /\ (a.lvl = "node") = (a.node # "")
                           /\ (a.kind = "value" => a.lvl # "none" /\ a.sty # "")
                           /\ (a.kind = "doc" => a.sty = "" /\ a.task = "" /\ a.op = "" /\ a.opt = "")}
 
-O(k, bad) == [k |-> k, bad |-> bad]
+O(k, bad) == [k |-> k, bad |-> bad, v |-> 0]     \* v: variant (which exception class / status the harness injects), ignored by the specification
+OV(k, bad, v) == [k |-> k, bad |-> bad, v |-> v]
 AlphaOk(n) == {O("ok", {})}
 AlphaWhole(n) == {O("ok", {}), O("reqT", {}), O("reqF", {})}                       \* a request is indexed completely or not at all
 AlphaAll(n) == {O(k, {}) : k \in {"ok", "reqT", "reqTdone", "reqF"}}
                \cup {O(k, B) : k \in {"itemT", "itemF"}, B \in (SUBSET (1..n)) \ {{}}}
-AlphaItems(n) == {O("ok", {}), O("reqT", {})} \cup {O(k, B) : k \in {"itemT", "itemF"}, B \in (SUBSET (1..n)) \ {{}}}
-AlphaTimeout(n) == {O("ok", {}), O("reqTdone", {})}
+(* simulation: success is as likely as the faults together, a few shapes of partial failures *)
+AlphaSim(n) == {OV("ok", {}, v) : v \in 0..7} \cup {OV("reqT", {}, v) : v \in 0..3} \cup {OV("reqF", {}, v) : v \in 0..1}
+               \cup {O("reqTdone", {})}
+               \cup {OV("itemT", B, v) : B \in {{1}, {n}, 1..n}, v \in 0..1} \cup {O("itemF", B) : B \in {{1}, {n}}}
 ROk == {"ok"}
 RBoth == {"ok", "fatal"}
 ====
